@@ -127,7 +127,7 @@ Fixpoint labels_of (ls : list wl) : option (list label) :=
 Definition fuel_of (l : list Z) : nat := 64 + 8 * length l.
 
 Definition accepted (fuel : nat) (st : state) (tr : list label) : bool :=
-  trace_accepted step thrs st_eqb lab_eqb stim fuel st tr.
+  trace_accepted_dfs step thrs st_eqb lab_eqb stim fuel st tr.
 
 (* index of the first label at which no candidate state is left (diagnostic only) *)
 Fixpoint first_reject (fuel : nat) (st : state) (tr : list label) (n k : nat) : Z :=
